@@ -334,6 +334,40 @@ func TestUnicodeClassNames(t *testing.T) {
 	rec.Count("class_name_texts_accepted", accepted)
 }
 
+// Range end points written as the characters themselves (char_in_range = unicode_char | ascii_char | char, char = all
+// characters): every ascending pair of printable ASCII characters, metacharacters included.  Left out are the
+// characters that make the text ambiguous or end the group: ']' '\\' '-' as end points, '^' and '[' as first.
+func TestRawRangeEndPoints(t *testing.T) {
+	rec.Begin(t)
+	rec.Rule(rule + ruleMore)
+	if rec.Shard() != 0 {
+		t.Skip("seed independent: shard 0 only")
+	}
+	n := 0
+	for lo := rune(0x20); lo <= 0x7E; lo++ {
+		if strings.ContainsRune(`]\-^[`, lo) {
+			continue
+		}
+		for hi := lo + 1; hi <= 0x7E; hi++ {
+			if strings.ContainsRune(`]\-`, hi) {
+				continue
+			}
+			meta := strings.ContainsRune(`|.?*+(){}$`, lo) || strings.ContainsRune(`|.?*+(){}$[`, hi)
+			if !meta && (int(lo)*7+int(hi))%5 != 0 {
+				continue // a fifth of the pairs without a metacharacter
+			}
+			for _, s := range []string{"[" + string(lo) + "-" + string(hi) + "]", "x[a" + string(lo) + "-" + string(hi) + "]+"} {
+				n++
+				rec.Case("raw-range:"+s, meta, "raw_range_end_points")
+				if err := checkCanonical(s); err != nil {
+					rec.Fail(t, "text", input{Text: s, Mode: "canonical"}, "%v", err)
+				}
+			}
+		}
+	}
+	rec.Count("raw_range_texts", n)
+}
+
 func TestFixedRegressions(t *testing.T) {
 	rec.Begin(t)
 	if rec.Shard() != 0 {
